@@ -1,0 +1,34 @@
+//go:build verif
+
+package memory
+
+import "github.com/paulsonkoly/calc/types/value"
+
+// Verification hooks, compiled in with the verif build tag only.
+
+// VerifSP is the operand stack pointer.
+func (m *Type) VerifSP() int { return m.sp }
+
+// VerifFrames is the number of call frames.
+func (m *Type) VerifFrames() int { return len(m.fp) / 2 }
+
+// VerifClosures is the depth of the closure stack.
+func (m *Type) VerifClosures() int { return len(m.closure) }
+
+// VerifStackLen is the allocated length of the operand stack.
+func (m *Type) VerifStackLen() int { return len(m.stack) }
+
+// VerifMaxStack is the largest operand stack length any memory grew to.
+var VerifMaxStack int
+
+// VerifMoves counts the growths that moved the stack to a new backing array.
+var VerifMoves int
+
+func verifGrown(old, grown []value.Type) {
+	if len(grown) > VerifMaxStack {
+		VerifMaxStack = len(grown)
+	}
+	if len(old) == 0 || len(grown) == 0 || &old[0] != &grown[0] {
+		VerifMoves++
+	}
+}
